@@ -224,13 +224,18 @@ func blockHash(h int64) []byte {
 
 // NewApp instantiates a fresh application on a copy of the base database.
 func (b *Base) NewApp() *band.BandApp {
+	app, _ := b.newAppDB()
+	return app
+}
+
+func (b *Base) newAppDB() (*band.BandApp, cosmosdb.DB) {
 	db := cosmosdb.NewMemDB()
 	for k, v := range b.kv {
 		if err := db.Set([]byte(k), v); err != nil {
 			panic(err)
 		}
 	}
-	return newApp(db, b.Home) // the file cache (oracle scripts, data sources) of the base home is read-only here
+	return newApp(db, b.Home), db // the file cache (oracle scripts, data sources) of the base home is read-only here
 }
 
 // ---- transactions ------------------------------------------------------------------------------
@@ -280,6 +285,9 @@ type Block struct {
 	// Sims are executed with the application's Simulate (the gRPC simulation path: runTx in simulate mode on a
 	// discarded branch) before the block is finalized.  They must not influence anything.
 	Sims []*TxGen
+	// Restart: the node process is restarted before this block — a new application object is constructed on the same
+	// database (everything that was only in memory is gone, everything committed is reloaded).
+	Restart bool
 }
 
 func signTx(app *band.BandApp, g *TxGen, info map[string]any, seqBump map[string]uint64) ([]byte, error) {
@@ -314,7 +322,7 @@ func RunPathPre(base *Base, blocks []Block, pre func(app *band.BandApp)) PathRes
 }
 
 func runPath(base *Base, blocks []Block, dev Deviation, record bool, pre func(app *band.BandApp)) (res PathResult) {
-	app := base.NewApp()
+	app, db := base.newAppDB()
 	if pre != nil {
 		pre(app)
 	}
@@ -331,6 +339,13 @@ func runPath(base *Base, blocks []Block, dev Deviation, record bool, pre func(ap
 			dt = 3 * time.Second
 		}
 		t = t.Add(dt)
+		if blk.Restart {
+			app = newApp(db, base.Home) // MemDB survives; the old object is dropped without Close (a crash, not a shutdown)
+			if app.LastBlockHeight() != h-1 {
+				res.Halt = fmt.Sprintf("restart before height %d: application reloaded at height %d", h, app.LastBlockHeight())
+				break
+			}
+		}
 		for _, g := range blk.Sims {
 			bz, err := signTx(app, g, base.Info, map[string]uint64{})
 			if err != nil {
